@@ -408,7 +408,7 @@ Proof. vm_compute. split; reflexivity. Qed.
    kind 2 (Log): the domain is one NewLog returns, and log_case_ok / log_case_borderline.
    The predicates of kinds 1 and 2 are unfolded in C17_check_meaning_scales. *)
 From Coq Require Import Qround.
-From MM Require Import Proofs.CheckBase Proofs.CheckC17Base Proofs.CheckC17Parse Proofs.CheckC17Lin Proofs.CheckC17Log Proofs.CheckC17Win Proofs.CheckC17.
+From MM Require Import Proofs.CheckBase Proofs.CheckC17Base Proofs.CheckC17Parse Proofs.CheckC17Lin Proofs.CheckC17Log Proofs.CheckC17Win Proofs.CheckC17WinLog Proofs.CheckC17.
 Section CheckSound.
 Local Open Scope Z_scope.
 Local Open Scope Q_scope.
@@ -693,13 +693,16 @@ Theorem C17_check_meaning_scales :
 Proof. exact case_meaning_scales. Qed.
 Print Assumptions C17_check_meaning_scales.
 
-(* THE BORDERLINE RULE (verdict code 1), Linear.  The admissible set is consulted only after the exact
+(* THE BORDERLINE RULE (verdict code 1).  Linear: the admissible set is consulted only after the exact
    comparison failed; it takes each floor/ceil whose argument q is within 4e-15 (1 + |q|) of an integer n
    (near_round) either way ({n-1, n} resp. {n, n+1}).  Outside that window the admissible set is the
    singleton exact outcome: a per-level observation, Ticks(o) with its minor ticks, and Nice(o) that pass
    the admissible comparison pass the exact one when no decision is inside the window - so a borderline
    verdict of these groups never arises there, and a borderline per-level group names a level with a
-   decision inside the window. *)
+   decision inside the window.  Log: the admissible set takes each undecided (N_border) slack decision of
+   log_exps either way and treats candidate minor ticks within 1e-12 of a domain end as optional; when no
+   slack decision is undecided (le_amb = false) Nice, TicksAtLevel/CountTicks at levels >= 0 and Ticks
+   whose levels are >= 0 (no minor ticks involved) that pass the admissible comparison pass the exact one. *)
 Theorem C17_check_borderline_window :
   (forall base eb mn mx tolv lv, lin_amb_level base eb mn mx false (lv_level lv) = false ->
      lin_level_adm base eb mn mx tolv lv = true -> lin_level_exact base eb mn mx tolv lv = true) /\
@@ -721,7 +724,16 @@ Theorem C17_check_borderline_window :
      within (tolv (fst xy)) (fst xy) ao && within (tolv (snd xy)) (snd xy) bo = true) /\
   (forall q n, near_round q = Some n ->
      Qabs (q - inject_Z n) <= (4 # 1000000000000000) * (1 + Qabs q) /\ floor_adm q = [(n - 1)%Z; n] /\ ceil_adm q = [n; (n + 1)%Z]) /\
-  (forall q, near_int q = false -> floor_adm q = [qfl q] /\ ceil_adm q = [qcl q]).
+  (forall q, near_int q = false -> floor_adm q = [qfl q] /\ ceil_adm q = [qcl q]) /\
+  (* Log: no slack decision of log_exps undecided *)
+  (forall tolv o base mn mx st a b, le_amb (log_e base mn mx) = false ->
+     log_nice_A tolv o base mn mx st a b = true -> log_nice_E tolv o base mn mx st a b = true) /\
+  (forall base mn mx tolv lv, le_amb (log_e base mn mx) = false -> (0 <= lv_level lv)%Z ->
+     existsb (log_level_adm1 base (lf_neg mn mx) (lf_emin mn mx) (lf_emax mn mx) tolv lv) (log_adm base mn mx) = true ->
+     log_level_exact base (log_e base mn mx) (lf_neg mn mx) (lf_emin mn mx) (lf_emax mn mx) tolv lv = true) /\
+  (forall tolv o base mn mx st major minor l, le_amb (log_e base mn mx) = false ->
+     log_search o (log_e base mn mx) false = FL_ok l -> (match minor with Some _ => 1 | None => 0 end <= l)%Z ->
+     log_ticks_A tolv o base mn mx st major minor = true -> log_ticks_E tolv o base mn mx st major minor = true).
 Proof. exact borderline_window. Qed.
 Print Assumptions C17_check_borderline_window.
 
